@@ -276,13 +276,7 @@ def r07_2(ck):
                    'process schema, process topology)', c)
 
 
-def _loop_of(x, stop):
-    p = x
-    while p is not None and p is not stop:
-        if isinstance(p, (ast.For, ast.While)):
-            return p
-        p = getattr(p, '_parent', None)
-    return None
+from .c05 import _loop_of  # noqa: E402  (iterables belong to the outside)
 
 
 def r07_4(ck):
@@ -315,6 +309,7 @@ def r07_4(ck):
                "output-only ports are no longer masked: the schema loop is "
                "not guarded by `not schema.get('_output')`", loop)
     n = 0
+    kinds = set()
     for s in A.walk_no_nested(loop):
         if isinstance(s, ast.Assign) and isinstance(
                 s.targets[0], ast.Subscript) and A.is_name(
@@ -323,6 +318,7 @@ def r07_4(ck):
             k = A.unparse(s.targets[0].slice)
             sg = cfg.guards(cfg.node(s))
             glob = ('==', "'*'", key) in sg
+            kinds.add('glob' if glob else 'plain')
             if glob:
                 lp = _loop_of(s, loop)
                 ok = lp is not None and lp is not loop and \
@@ -357,7 +353,11 @@ def r07_4(ck):
                 ck.require(ok, 'R07.4', f, s,
                            'the entry is the view of the wired node through '
                            'the declared sub-schema', None, s)
-    ck.floor('R07.4', n, 4, 'stores into the view')
+    ck.floor('R07.4', n, 2, 'stores into the view')
+    ck.require(kinds == {'glob', 'plain'}, 'R07.4', f, loop,
+               'the view has entries for glob children and for declared '
+               'keys', 'the view is no longer filled for %s'
+               % sorted({'glob', 'plain'} - kinds), loop)
     for c in A.calls_in(loop, ('get_path', 'outer_path')):
         a0 = A.arg_of(c, 0)
         if a0 is not None and 'path' in A.names_in(a0):
